@@ -742,6 +742,92 @@ def leaf_checks(seed, n, cases, workdir):
     return total, bad
 
 
+# ------------------------------------------------------------------ cross-file evidence: an excluded / ignored file must not CONTRIBUTE to a violation
+# lint_files_parallel lets the workers lint the files one by one and afterwards feeds every collected file to the cross-file rules
+# (DRY) in the parent -- behind the same two gates as lint_file (Gen.par_evidence_gates).  Projects with a duplicated block whose
+# only twin is hidden (ignore pattern of each documented form / always-excluded directory), plus a visible pair as the control.
+XBODIES = [
+    ["def compute_total(items):", "    total = 0", "    for item in items:", "        if item.price > 10:", "            total += item.price * item.quantity",
+     "        else:", "            total += item.price", "    result = total * 2", "    return result"],
+    ["def render_rows(rows, width):", "    lines = []", "    for row in rows:", "        cells = [str(c).ljust(width) for c in row]", "        lines.append(' | '.join(cells))",
+     "    header = '-' * width", "    lines.insert(0, header)", "    text = chr(10).join(lines)", "    return text"],
+    ["def merge_settings(base, extra):", "    merged = dict(base)", "    for key, value in extra.items():", "        if key in merged and merged[key] is None:", "            merged[key] = value",
+     "        elif key not in merged:", "            merged[key] = value", "    keys = sorted(merged)", "    return {k: merged[k] for k in keys}"],
+]
+
+
+def gen_xcase(seed, i):
+    r = rng_for(seed, PROP, f"xfile{i}")
+    hide = r.choice(["Under", "Dir", "AnyDir", "DirPath", "Suffix", "AnySuffix", "Exact", "excl_dir", "excl_dir", "egg"])
+    hdir = r.choice(["build", "dist", "node_modules", ".venv", "htmlcov"]) if hide == "excl_dir" else "pkg.egg-info" if hide == "egg" else r.choice(["gen", "legacy", "vendor"])
+    hname = "dup_generated.py" if hide in ("Suffix", "AnySuffix") else r.choice(["dup.py", "old.py"])
+    hidden = (["src"] if hide in ("Dir", "AnyDir", "DirPath", "excl_dir", "egg", "Exact") and r.random() < 0.5 or hide == "DirPath" else []) + [hdir, hname]
+    pat = {"Under": ["Under", hidden[:-1]], "Dir": ["Dir", hdir], "AnyDir": ["AnyDir", hdir], "DirPath": ["DirPath", hidden[:-1]],
+           "Suffix": ["Suffix", "_generated.py"], "AnySuffix": ["AnySuffix", "_generated.py"], "Exact": ["Exact", hidden]}.get(hide)
+    b = r.sample(range(len(XBODIES)), 2)
+    files = {"/".join(hidden): XBODIES[b[0]], "src/twin.py": XBODIES[b[0]]}
+    control = r.random() < 0.7
+    if control:
+        files["src/c1.py"] = XBODIES[b[1]]
+        files["lib/c2.py"] = XBODIES[b[1]]
+    for k in range(r.randint(3, 7)):
+        files[r.choice(["src", "lib", "app"]) + f"/m{k}.py"] = [f"def f{k}(a, b):", f"    value_{k} = a * {k + 2} + b", f"    other_{k} = value_{k} - {k}", f"    return other_{k} + {k * 7 + 1}"]
+    return {"kind": "xfile", "i": f"xfile{i}", "hide": hide, "hidden": "/".join(hidden), "pattern": pat, "where": r.choice(["ti", "cfg"]), "cfg_kind": "json" if r.random() < 0.2 else "yaml",
+            "files": files, "expected_dry": sorted(["src/c1.py", "lib/c2.py"]) if control else [], "W": r.choice([3, 4, 6])}
+
+
+def run_xcase(case):
+    import multiprocessing as mp
+    mp.current_process()._config["daemon"] = False
+    with scratch_dir("tv-c14x-") as base:
+        root = base / "proj"
+        for rel, lines in case["files"].items():
+            (root / rel).parent.mkdir(parents=True, exist_ok=True)
+            (root / rel).write_text("\n".join(lines) + "\n")
+        conf = {"dry": {"enabled": True, "min_duplicate_lines": case["W"], "min_occurrences": 2, "storage_mode": "memory", "detect_duplicate_constants": False}}
+        pats = [render_pat(case["pattern"])] if case["pattern"] else []
+        if case["where"] == "cfg" and pats:
+            conf["ignore"] = pats
+        elif pats:
+            (root / ".thailintignore").write_text("\n".join(pats) + "\n")
+        (root / (".thailint." + case["cfg_kind"])).write_text(json.dumps(conf, indent=1))      # JSON is YAML
+        from src.linter_config.ignore import clear_ignore_parser_cache
+        clear_ignore_parser_cache()
+        allf = [root / rel for rel in sorted(case["files"])]
+        out = {}
+        for name in ("pdir", "pfiles", "sdir", "sfiles"):
+            try:
+                orch = make_orchestrator(root, None)
+                vs = (orch.lint_directory_parallel(root, recursive=True, max_workers=2) if name == "pdir" else orch.lint_files_parallel(allf, max_workers=2) if name == "pfiles"
+                      else orch.lint_directory(root) if name == "sdir" else orch.lint_files(allf))
+                out[name] = sorted({(str(v.rule_id), _norm([(v.rule_id, str(v.file_path))], root, base)[0], str(v.message)[:300]) for v in vs})
+            except Exception as e:  # noqa: BLE001
+                out[name] = {"error": f"{type(e).__name__}: {e}"[:400]}
+            fails = drain_failures()
+            if fails:
+                out[name] = {"error": "a rule failed internally: " + json.dumps(fails[:2])[:400]}
+        return out
+
+
+def decide_xcases(chk, cases, impls):
+    for case, impl in zip(cases, impls):
+        chk.dist("xfile:hidden-by:" + case["hide"])
+        chk.count(["xfile", case["files"], case["pattern"], case["where"], case["cfg_kind"]], bool(case["expected_dry"]))
+        for name, res in impl.items():
+            chk.dist("obs:xfile:" + name)
+            if isinstance(res, dict):
+                chk.violation({"reason": "the run failed (exception / swallowed rule failure)", "detail": res, "observation": name, "case": case})
+                continue
+            chk.traces_validated += 1
+            dry = sorted({f for rule, f, _ in res if rule.startswith("dry")})
+            touched = [x for x in res if x[1] == case["hidden"] or case["hidden"] in x[2]]
+            if touched or dry != case["expected_dry"]:
+                chk.violation({"reason": "an excluded / ignored file contributed to a violation (it is reported, or a duplicate-code violation of another file counts it), "
+                                         "or a file that must be reported is not: files with dry violations differ from the visible members of duplicate groups",
+                               "observation": name, "hidden_file": case["hidden"], "files_with_dry_violations": dry, "expected": case["expected_dry"],
+                               "violations_involving_the_hidden_file": touched[:4], "case": case})
+
+
 # ------------------------------------------------------------------ the check
 def load_known(chk):
     """known.d/C14.json is this property's slice of known_findings.json (the lead assembles the latter with tools/mkmanifest.py)"""
@@ -786,12 +872,18 @@ def run(tier: str, seed: int, replay: str | None = None) -> int:
                 "the ignore sources linted afterwards in the same process on the same paths (expected: the specification on the current state) "
                 "(in-process Orchestrator, a fraction through the CLI; targets spelled absolutely, or relative to a working directory that is the project root, another "
                 "directory of the project, the parent or the grandparent of the root; a fraction of projects under an excluded-named parent); "
-                "a case is non-trivial when the recursive root run reports some but not all files of the tree; distinct = distinct (tree, sources, placement)")
+                "a case is non-trivial when the recursive root run reports some but not all files of the tree; distinct = distinct (tree, sources, placement); "
+                "plus a stream of projects with duplicated code blocks (dry enabled) in which one copy is hidden by an ignore pattern of a documented form or by an "
+                "always-excluded directory and its only twin is visible, with a visible duplicate pair as control: lint_directory_parallel / lint_files_parallel(max_workers=2) "
+                "and the sequential entry points must report exactly the control pair and nothing that involves the hidden file")
     chk.trusted_base += [
         "Model/Glob.v is a model of CPython's fnmatch (library oracle): validated on every run against fnmatch.fnmatch on generated (name, pattern) pairs (leaf level), including bracket expressions of any shape (hyphens anywhere, well-formed / reversed / degenerate ranges next to each other and next to a '!', leading ! ^ ] [, backslashes, set operators, unclosed brackets); names and patterns are byte strings (ASCII in the generated class: a non-ASCII character is several bytes to the model but one character to fnmatch)",
         "Model/CollectStr.v primitives (PurePath.suffix/.parts, str.strip/rstrip/startswith/endswith) validated against CPython at the leaf level; content.splitlines() of .thailintignore, yaml.safe_load / json.load of the config and os.walk are oracles (the abstract input is the list of lines / the ignore list / the directory tree)",
         "the control flow of _collect_files_fast, lint_file, lint_directory, lint_files, _load_repo_ignores and execute_linting_on_paths is hand-modelled in Model/Collect.v (shape-checked by the translator, fingerprinted, tied by the observable-level correspondence)",
         "observation = set of file_path values of the reported violations with a planted violation in every file; 'the file reached the rules' is inferred from it",
+        "str() of distinct path objects differs (pathlib): hypothesis of the memo theorems (C14_ignore_memo_*); all observations of one case are made on the same IgnoreDirectiveParser (get_ignore_parser keeps it per project root), so the memo filled by one run is the memo the next run starts with",
+        "stream `xfile` (an ignored / excluded file must not contribute to a duplicate-code violation): judged in Python against the property statement on the reported violations (rule ids, files, messages); the DRY rule itself is not modelled here (C03), only the gates in front of it (Gen.par_evidence_gates = Gen.lint_gates, proved)",
+        "fnmatch.translate of the running interpreter is the function transcribed in Model/Glob.v (Gen item fnmatch_translate: AST fingerprint, fail-closed); the reading of the `re` character class it produces is part of the fnmatch oracle",
     ]
     import time
     t0 = time.time()
@@ -807,7 +899,12 @@ def run(tier: str, seed: int, replay: str | None = None) -> int:
     code_dirs, code_exts = code_tables()
     state = {"cands_all": None, "t_impl": 0.0, "t_coq": 0.0}
     # the enlarged budget (scale > 1: something no longer checks) is spent batch by batch and only until a failing input is found
-    for b in range(scale):
+    xreplay = None
+    if replay:
+        rc0 = json.loads(Path(replay).read_text())["violation"]["case"]
+        if rc0.get("kind") == "xfile":
+            xreplay = rc0
+    for b in range(0 if xreplay else scale):
         if replay:
             cases = [json.loads(Path(replay).read_text())["violation"]["case"]]
             cases = [c.get("origin") or c for c in cases]
@@ -838,6 +935,13 @@ def run(tier: str, seed: int, replay: str | None = None) -> int:
         decide(chk, cases, impls, verdicts, state)
         if replay or chk.violations:
             break
+    # the cross-file evidence stream comes last, so that a failure of the main streams (which can name a former finding) is reported first
+    nx = 0 if (replay and not xreplay) else (10 if tier == "quick" else 60) * scale
+    xcases = [xreplay] if xreplay else [gen_xcase(seed, i) for i in range(nx)]
+    if xcases:
+        t0 = time.time()
+        decide_xcases(chk, xcases, pool_map(run_xcase, xcases, procs=4))
+        state["t_impl"] += time.time() - t0
     chk.notes.append(f"phase times: build {t_build:.0f}s, implementation runs {state['t_impl']:.0f}s, model evaluation in coqc {state['t_coq']:.0f}s")
     cands_all = state["cands_all"]
     if cands_all is not None and not cands_all[0]:
